@@ -1311,6 +1311,9 @@ def _drop_specs():
         # topics=None asks for ALL topics: a null array in v1+, the empty array in v0 (where empty = all)
         ("MetadataRequest", "all_topics", "topics",
          [({"topics": None}, None)], ["topics"], "meta_all"),
+        # topics=[] asks for NO topics from v1 on (the bootstrap request): the empty array, never the null array
+        ("MetadataRequest", "no_topics", "topics",
+         [({"topics": []}, [])], ["topics"], None),
     ]
 
 
